@@ -14,6 +14,7 @@ CONSTANTS
   ApiOps = FALSE
   SeqReq = FALSE
   Reqs = {1, 2, 3}
+  LocalKinds = {"budget", "cancel"}
 INIT Init
 NEXT Next
 VIEW View
